@@ -12,7 +12,7 @@ def mirror(v, n):
     return n + 1 + v if (v is not None and v < 0) else v
 
 
-def run(chk):
+def _run_once(chk):
     chk.rule = ("K-range: try_into_range exhaustively for n ≤ 7, sides in -8..8/open (mirror pairs compared on the implementation); "
                 "engine level: for n in 1..5 parts, bounds lists of 1-3 bounds with sides in ±(n+1)/open, a random subset of the "
                 "negative indexes with 1 ≤ k ≤ n rewritten to n+1-k (skipped when the rewritten bound is not well-formed); modes "
@@ -129,3 +129,9 @@ def run(chk):
             key = "lines-fwd-straddling-range-with-fallback" if (lines_straddle_with_fallback(ca) or lines_straddle_with_fallback(cb)) else None
             chk.report_oracle("output changes when -k is rewritten to n+1-k",
                               {"case": x, "case_b": y, "a": a, "b": b}, finding_key=key)
+
+
+def run(chk):
+    # thorough = several independent rounds of the same generators (the PRNG keeps advancing), so that memory stays bounded
+    for _round in range(1 if chk.tier == "quick" else 6):
+        _run_once(chk)
